@@ -427,3 +427,45 @@ func ZZ_C06_LeafPathManySubtrees() {
 	}
 	zzsym.Cover("leafpath-many-subtrees")
 }
+
+// ---------------------------------------------------------------------------------------------
+// ZZ_C06_PredictAsLedgerDoes: the ledger appends block hashes (AddBlockMerkleTreeRoot) without ever asking
+// for the root in between, and then predicts the root for a proposal's earlier block hashes - a list that is
+// EMPTY once every block the proposal refers to is already committed. No Root() call precedes the prediction
+// here, so nothing the tree caches lazily can help: predicted root = MTH(appended ++ extra) for 0..K extra.
+// ---------------------------------------------------------------------------------------------
+func ZZ_C06_PredictAsLedgerDoes() {
+	N := zzsym.Param("N")
+	size := zzsym.Choose("size", N+1)
+	extra := zzsym.Choose("extra", zzsym.Param("K")+1)
+	reload := zzsym.Choose("reloaded", 2) == 1
+	leaves := zzLeaves(size)
+	tree := NewTree(0, nil, &memHashStore{})
+	for i := 0; i < size; i++ {
+		tree.Append(leaves[i])
+	}
+	if reload { // node restart: the tree is rebuilt from its saved compact state, again without a Root() call
+		tree = NewTree(tree.TreeSize(), append([]common.Uint256(nil), tree.Hashes()...), &memHashStore{})
+	}
+	more := zzLeaves(extra)
+	moreH := make([]common.Uint256, extra)
+	for i := range more {
+		moreH[i] = zzU256(more[i])
+	}
+	all := append(append([][]byte(nil), leaves...), more...)
+	var predicted common.Uint256
+	if extra == 1 && zzsym.Choose("single-leaf-api", 2) == 1 {
+		predicted = tree.GetRootWithNewLeaf(moreH[0])
+	} else {
+		predicted = tree.GetRootWithNewLeaves(moreH)
+	}
+	zzsym.Assert(predicted == zzMTH(all), "root predicted for 0..K extra leaves = MTH of the appended and the extra leaves, also when the root was never asked for before")
+	zzsym.Assert(tree.Root() == zzMTH(leaves), "the prediction leaves the tree as it was")
+	if extra == 0 {
+		zzsym.Cover("predict-none")
+	}
+	if reload {
+		zzsym.Cover("predict-after-reload")
+	}
+	zzsym.Cover("predict-done")
+}
